@@ -154,6 +154,26 @@ def reuse_case():
     return None
 
 
+def class_hierarchy_case():
+    """objects of a base class and of a class derived from it, each declaring interfaces of its own, introspected in either
+    order: every object reports exactly the interfaces of its own class hierarchy"""
+    from txdbus import introspection, interface, objects
+    for order in ((0, 1), (1, 0)):
+        ib = interface.DBusInterface('org.verif.BaseI', interface.Method('B', arguments='s'), noRegister=True)
+        idr = interface.DBusInterface('org.verif.DerivedI', interface.Method('D', returns='ai'), interface.Property('P', 'u'), noRegister=True)
+        Base = type('XBase', (objects.DBusObject,), {'dbusInterfaces': [ib]})
+        Derived = type('XDerived', (Base,), {'dbusInterfaces': [idr]})
+        objs = [Base('/b'), Derived('/d')]
+        want = [{'org.verif.BaseI'}, {'org.verif.BaseI', 'org.verif.DerivedI'}]
+        for k in order:
+            o = objs[k]
+            xml = introspection.generateIntrospectionXML(o.getObjectPath(), {o.getObjectPath(): o})
+            got = {i.name for i in introspection.getInterfacesFromXML(xml, True) if i.name.startswith('org.verif.')}
+            if got != want[k]:
+                return 'introspecting the %s object %s: interfaces %r, its classes declare %r' % (('base', 'derived')[k], ('first', 'second')[order.index(k)], sorted(got), sorted(want[k]))
+    return None
+
+
 def bounded(tier, seed):
     rnd = random.Random(seed * 571 + 3)
     pool = H.signature_pool('quick')
@@ -161,6 +181,10 @@ def bounded(tier, seed):
     f = reuse_case()
     if f:
         return n, f, {'case': 'known-interface reuse'}
+    n += 1
+    f = class_hierarchy_case()
+    if f:
+        return n, f, {'case': 'class hierarchy'}
     for s in range(6000 if tier == 'thorough' else 80):
         n += 1
         f = roundtrip_case(rnd, pool, rnd.choice([1, 1, 2, 3]))
